@@ -20,6 +20,7 @@ gen_spec(rng, size=None, profile="mixed", lists="all") -> Spec
       lists:   "all" | "proper" (only well-formed collections) | "none"
       size:    rough number of motifs (default rng-chosen 1..6); a motif adds 1..12 triples
 gen_literal(rng, kind=None) -> term   kind in LITERAL_KINDS (None = random kind; "xml" = rdf:XMLLiteral fragments)
+gen_langtag(rng) -> str               a language tag at the edges of the LANGTAG production (no subtag length limits)
 gen_xml_fragment(rng) -> str          a well-formed XML fragment (siblings re-declaring a namespace, nesting, attributes…)
 gen_iri(rng, role="node") -> term     role "node" | "pred" (predicates avoid IRIs Turtle cannot abbreviate only sometimes)
 gen_text(rng, maxlen=8) -> str        from the character pool (quotes, backslashes, newlines, \r, tabs, controls, non-BMP…)
@@ -92,7 +93,13 @@ TEXT_FIXED = ["first\u2028second", "a\u2029b", "a\x0cb", "x\x0by", "a\x1cb\x1dc\
               "<a>&amp;</a>", "]]>", "<x>]]></x>", "tab\there", " lead", "trail ", "a  b", "\x00", "a\x0bb", "\ud7ff",
               "'''", "it's", "@en", "^^", "\U0001f600", "e\u0301", "\ufeffbom", "{}", "a\xa0b", "a\x85b", "\\\\", '\\\\"',
               'q"\n', '\n\\\\"', "a\u2028b", "x\n\ufffe"]
-LANGS = ["en", "en-US", "EN", "en-gb", "de-DE-1996", "zh-Hant-TW", "x-priv", "fr-CA-x-ab12", "i-klingon", "sr-Latn"]
+# Language tags: everything `Literal` accepts = the LANGTAG production of Turtle / N-Triples,
+# `[a-zA-Z]+ ('-' [a-zA-Z0-9]+)*` — NO length limits (BCP 47's 1..8 per subtag is not part of the RDF grammars):
+# long primary subtag, long later subtags, many subtags, digits in later subtags, mixed case, one-letter subtags.
+LANGS = ["en", "en-US", "EN", "en-gb", "de-DE-1996", "zh-Hant-TW", "x-priv", "fr-CA-x-ab12", "i-klingon", "sr-Latn",
+         "en-x-transcribed", "portuguese", "x-a", "a", "Q", "de-CH-1901-x-verylongprivateuse", "en-a-b-c-d-e-f-g-h-i-j",
+         "abcdefghijklmnopqrstuvwxyz", "EN-Latn-US-x-TWAIN9", "zh-cmn-Hans-CN-x-0123456789", "tlh-x-" + "k" * 40,
+         "a-1", "x-1-2-3", "sl-rozaj-biske-1994", "en-US-u-islamcal", "xx-" + "-".join(["ab9"] * 12)]
 
 # (datatype, valid lexical forms, invalid lexical forms)
 DATATYPES = [
@@ -304,6 +311,18 @@ def gen_xml_fragment(rng, depth=0):
     return "".join(parts)
 
 
+def gen_langtag(rng):
+    """a language tag at the edges of the LANGTAG production: fixed pool or composed (1..6 subtags of length 1..14,
+    letters only in the first, letters and digits later, random case)"""
+    if rng.random() < 0.6:
+        return rng.choice(LANGS)
+    letters = "abcdefghijklmnopqrstuvwxyzABCDEFGHXZ"
+    subs = ["".join(rng.choice(letters) for _ in range(rng.choice([1, 2, 3, 8, 9, 14])))]
+    for _ in range(rng.choice([0, 1, 2, 5])):
+        subs.append("".join(rng.choice(letters + "0123456789") for _ in range(rng.choice([1, 2, 4, 8, 9, 12]))))
+    return "-".join(subs)
+
+
 def gen_literal(rng, kind=None):
     kind = kind or rng.choice(LITERAL_KINDS)
     if kind == "xml":
@@ -311,7 +330,7 @@ def gen_literal(rng, kind=None):
     if kind == "plain":
         return L(gen_text(rng))
     if kind == "lang":
-        return L(gen_text(rng), None, rng.choice(LANGS))
+        return L(gen_text(rng), None, gen_langtag(rng))
     if kind == "falsy":
         return rng.choice([L(""), L("0", XSD + "integer"), L("false", XSD + "boolean"), L("0.0", XSD + "double"),
                            L("0.0", XSD + "decimal"), L("", XSD + "string"), L("", None, "en"), L("0")])
